@@ -167,7 +167,15 @@ def _boom(x):
     raise RuntimeError('boom')
 
 
+def _tofloat(x):
+    need_num(x)
+    return Fraction(int(x)) if isinstance(x, bool) else Fraction(x)
+
+
 FUNCS = {
+    'float': _tofloat,
+    'abs': lambda x: vabs(x),
+    'wrap1': lambda x: [x],
     'boom': _boom,
     'inc': lambda x: BIN['add'](x, 1),
     'dbl': lambda x: BIN['mul'](x, 2),
